@@ -100,7 +100,7 @@ func (f *treeFacts) walk(t *relationtuple.Tree, depth int) {
 func HarnessC09() {
 	sh := shapes(0)
 	// schemaless, one namespace or two namespaces sharing relation and object names
-	w := &world{shape: &sh[verifChoice(2)], nObj: verifParam("objs"), maxWidth: 64}
+	w := &world{shape: &sh[verifChoice(3)], nObj: verifParam("objs"), maxWidth: 64}
 	verifNote("config: " + w.shape.name)
 	nRel := len(w.shape.rels)
 	w.rows = symRows(verifParam("K"), w.nObj, nRel)
